@@ -325,7 +325,7 @@ abbrev RQ0 (g : Cfg) (Q : Transport → Prop) (S0 : Conn → Prop) (N : Nat) (c 
 /-- **The handler has returned**: `close` of a request that has read its input to the end. -/
 theorem bdoneQ {g : Cfg} {Q : Transport → Prop} {S0 : Conn → Prop} (hQ : MonoQ Q) {c : Conn} {r0 r : AReq} {h h' : HState} {e' : Run.Env}
     {O1 : Bytes} (hph : c.phase = .handler r0 h)
-    (heq : handlerPoll (handlerFuel c.env r0) r0 h c.env = (r, h', e', .done (.ok g.st)))
+    (heq : handlerPoll ((handlerFuel c.env r0 + scriptOf c)) r0 h c.env = (r, h', e', .done (.ok g.st)))
     (hws : h'.writers = [none]) (hm : e'.mutex = none)
     (hlog : e'.tr.wlog = (g.L1 ++ O1) ++ streamRecords 6 g.p.id g.data)
     (hfin : REnd g.N r e'.tr.input) (hO : O1 ++ r.sp.output = g.Ob) (hseen : Q e'.tr)
@@ -362,7 +362,7 @@ theorem bdoneQ {g : Cfg} {Q : Transport → Prop} {S0 : Conn → Prop} (hQ : Mon
 theorem bwrite_outQ {g : Cfg} {Q : Transport → Prop} {S0 : Conn → Prop} (hQ : MonoQ Q) {c : Conn} {r0 r : AReq} {h : HState} {e0 : Run.Env}
     {O1 : Bytes} (hph : c.phase = .handler r0 h)
     {out : AReq × HState × Run.Env × HRes}
-    (heq : handlerPoll (handlerFuel c.env r0) r0 h c.env = out)
+    (heq : handlerPoll ((handlerFuel c.env r0 + scriptOf c)) r0 h c.env = out)
     (hw : WOutG g.p.id g.data g.st (g.L1 ++ O1) r e0 out)
     (hts0 : TStep c.env.tr e0.tr) (hsg0 : e0.segs = c.env.segs)
     (hfin : REnd g.N r e0.tr.input) (hO : O1 ++ r.sp.output = g.Ob) (hseen : Q e0.tr)
@@ -400,7 +400,7 @@ theorem hwq_poll {g : Cfg} {Q : Transport → Prop} {S0 : Conn → Prop} (hQ : M
     (hfu : wcost g.data.length + 3 ≤ 1000) {c : Conn} (h : HWq g Q c) : RQ0 g Q S0 3 c := by
   obtain ⟨r, h, O1, hph, hw, hfin, hO, hseen, hb, hstop, hev, hsc⟩ := h
   have hfuel := handlerFuel_ge c.env r
-  have hout := write_phaseG (r := r) hw hb (fuel := handlerFuel c.env r) (by omega)
+  have hout := write_phaseG (r := r) hw hb (fuel := (handlerFuel c.env r + scriptOf c)) (by omega)
   exact bwrite_outQ hQ (r := r) (e0 := c.env) hph rfl hout (.refl _) rfl hfin hO hseen hb hstop hev hsc
 
 theorem tq_poll {g : Cfg} {Q : Transport → Prop} {S0 : Conn → Prop} (hQ : MonoQ Q) {c : Conn} (h : TQ g Q c) :
@@ -520,7 +520,7 @@ abbrev R1 (g : Cfg) (k : Nat) (N : Nat) (c : Conn) : Prop := RQ0 g (Q1 g k) (S01
 /-- the rest of a poll from the handler's `readAll` on -/
 theorem ra1_poll {g : Cfg} {n k : Nat} (ok : BR2OK g n k) {c : Conn} {r0 r : AReq} {H0 : HState} {sub : HSub}
     {e : Run.Env} {f : Nat} {dO : Bytes} {shown : List Bytes} (hph : c.phase = .handler r0 H0)
-    (heq : handlerPoll (handlerFuel c.env r0) r0 H0 c.env =
+    (heq : handlerPoll ((handlerFuel c.env r0 + scriptOf c)) r0 H0 c.env =
       handlerPoll f r { ops := .readAll :: oscript g.data g.st, sub := sub, propagate := true } e)
     (hs : BSt g.K g.L1 [] r e.mutex e.tr (taken k shown ++ accOf sub) dO) (hsl : SlEv shown e.tr)
     (hts : TStep c.env.tr e.tr) (hsg : e.segs = c.env.segs)
@@ -576,10 +576,10 @@ theorem hb1_poll {g : Cfg} {n k : Nat} (ok : BR2OK g n k) {c : Conn} (h : HB1 g 
   obtain ⟨r, n', handed, dO, shown, hph, hs, hpos, hsh, hevs, hfu, hb, hstop, hev, hsc⟩ := h
   have hK := ok.kok
   have hcapr : r.sp.cap = g.cap := by obtain ⟨⟨G, hi⟩, _⟩ := hs; exact hi.capK
-  have hfuel : 1000 + 4 * c.env.tr.input.length + 4 * g.cap ≤ handlerFuel c.env r := by
+  have hfuel : 1000 + 4 * c.env.tr.input.length + 4 * g.cap ≤ (handlerFuel c.env r + scriptOf c) := by
     unfold handlerFuel; rw [hcapr]; omega
   rcases rounds_runG hK (L := g.L1) (P := []) ok.rwf k (.readAll :: oscript g.data g.st) [] true n'
-      (handlerFuel c.env r) r c.env handed dO shown (by omega) hb hs hpos hsh hevs with
+      ((handlerFuel c.env r + scriptOf c)) r c.env handed dO shown (by omega) hb hs hpos hsh hevs with
     ⟨n2, r', e', handed', dO', shown', a0, a1, a2, a3, a4, a5, a6, a7, a8, a9, _⟩ |
     ⟨r', e', handed', dO', shown', f', b1, b2, b3, b4, b5, b6, b7, b8, _⟩
   · have hstep := C07.handler_step c r _ hph
@@ -603,7 +603,7 @@ theorem hb1_poll {g : Cfg} {n k : Nat} (ok : BR2OK g n k) {c : Conn} (h : HB1 g 
 theorem ha1_poll {g : Cfg} {n k : Nat} (ok : BR2OK g n k) {c : Conn} (h : HA1 g k c) : R1 g k 3 c := by
   obtain ⟨r, acc, dO, shown, hph, hs, hsl, hb, hstop, hev, hsc⟩ := h
   have hcapr : r.sp.cap = g.cap := by obtain ⟨⟨G, hi⟩, _⟩ := hs; exact hi.capK
-  have hfuel : 1000 + 4 * c.env.tr.input.length + 4 * g.cap ≤ handlerFuel c.env r := by
+  have hfuel : 1000 + 4 * c.env.tr.input.length + 4 * g.cap ≤ (handlerFuel c.env r + scriptOf c) := by
     unfold handlerFuel; rw [hcapr]; omega
   have hfu := ok.hfu
   refine ra1_poll ok (sub := .readAllAcc acc) (shown := shown) hph rfl hs hsl (.refl _) rfl ?_ hb hstop hev hsc
@@ -1109,7 +1109,7 @@ theorem hb2_poll {g : Cfg} {n k : Nat} (ok : BR3OK g n k) {c : Conn} (h : HB2 g 
   have hfuel := handlerFuel_ge c.env r
   have hRwf : ∀ r ∈ g.R, r.WF := fun r hr => (ok.str r hr).1
   rcases rounds_runL hK (L := g.L1) (P := []) hRwf k [.ret g.st] [] true n'
-      (handlerFuel c.env r) r c.env handed dO shown (by omega) hb hs hpos hsh hevs hl0 with
+      ((handlerFuel c.env r + scriptOf c)) r c.env handed dO shown (by omega) hb hs hpos hsh hevs hl0 with
     ⟨n2, r', e', handed', dO', shown', a0, a1, a2, a3, a4, a5, a6, a7, a8, a9, a10, a11⟩ |
     ⟨r', e', handed', dO', shown', f', b1, b2, b3, b4, b5, b6, b7, b8, b9, b10, b11⟩
   · have hstep := C07.handler_step c r _ hph
